@@ -24,6 +24,8 @@ pub enum TermAct {
     ServerDisconnect { reason: u8, form: u8, props: bool },
     Eof,
     ReadErr,
+    /// one read fails with Interrupted / WouldBlock while more input is readable behind it
+    TransientReadErr(bool),
     Garbage,
     DropHandles,
     WriteErr,
@@ -316,7 +318,8 @@ pub fn apply(w: &mut World, act: Act) {
             let interval = w.sei.unwrap_or(0);
             let ago: u64 = if k == 2 { 1_000_000 } else { 1 };
             let expired = k != 3 && (interval == 0 || (interval != u32::MAX && ago > interval as u64));
-            let o = ResumeOpts { secs_ago: ago, sei: w.sei, receive_max: if k == 1 { Some(2) } else { None }, expect_expired: expired, plain: k == 3, ..Default::default() };
+            // k == 4: the resumed connection announces a Maximum Packet Size (8) below what is re-sent
+            let o = ResumeOpts { secs_ago: ago, sei: w.sei, receive_max: if k == 1 { Some(2) } else { None }, max_packet: if k == 4 { Some(8) } else { None }, expect_expired: expired, plain: k == 3, ..Default::default() };
             w.resume_full(o);
         }
         Act::Start(k) => {
@@ -415,6 +418,7 @@ pub fn apply(w: &mut World, act: Act) {
             TermAct::ServerDisconnect { reason, form, props } => w.server_disconnect(reason, form, props),
             TermAct::Eof => w.eof(),
             TermAct::ReadErr => w.read_err(),
+            TermAct::TransientReadErr(wb) => w.read_err_transient(if wb { std::io::ErrorKind::WouldBlock } else { std::io::ErrorKind::Interrupted }),
             TermAct::Garbage => {
                 // undecodable input of several kinds, chosen by the amount of traffic so far
                 let variants: [&[u8]; 6] = [
